@@ -139,7 +139,7 @@ func runC14(c *core.Ctx) {
 	m.findSmallOrder()
 
 	// ---------------- A. keys and signatures
-	n := c.Pick(400, 12000)
+	n := c.Pick(400, 60000)
 	for i := 0; i < n; i++ {
 		if !c.Next() {
 			continue
@@ -197,7 +197,7 @@ func runC14(c *core.Ctx) {
 	}
 
 	// ---------------- B. adversarial verification
-	nAdv := c.Pick(6, 60)
+	nAdv := c.Pick(6, 160)
 	for ai := 0; ai < nAdv; ai++ {
 		if !c.Next() {
 			continue
@@ -500,7 +500,7 @@ func (m *c14) hookOps() {
 		c.Distinctf("hook:muladd:%d", i)
 	}
 	// point decoding: accept set and value
-	nDec := c.Pick(300, 20000)
+	nDec := c.Pick(300, 100000)
 	for i := 0; i < nDec; i += 50 {
 		if !c.Next() {
 			continue
@@ -551,7 +551,7 @@ func (m *c14) hookOps() {
 		c.Distinctf("hook:decode:%d", i)
 	}
 	// multiplications
-	nMul := c.Pick(120, 6000)
+	nMul := c.Pick(120, 30000)
 	for i := 0; i < nMul; i++ {
 		if !c.Next() {
 			continue
